@@ -159,6 +159,7 @@ def gen_case(seed, tier):
                         "serial": wl.random() < 0.3,
                         "noop": wl.random() < 0.08,
                         "nested2": wl.random() < 0.1,
+                        "repl": wl.random() < 0.08,
                     }
                 )
             elif k == "r":
@@ -180,7 +181,7 @@ def gen_case(seed, tier):
         threads[0]["late"] = False
     alloc_fail = wl.choice([1, 2, 3, 4]) if wl.random() < 0.12 else None
     alloc_fail_commit = wl.choice([1, 2, 3]) if wl.random() < 0.10 else None
-    return {"prop": PROP, "seed": seed, "cfg": cfg, "threads": threads, "schedule": None, "alloc_fail": alloc_fail, "alloc_fail_commit": alloc_fail_commit, "btree_t": wl.choice([3, 3, 4, 127]), "alloc_exc": wl.choice(["mem", "mem", "base"])}
+    return {"prop": PROP, "seed": seed, "cfg": cfg, "threads": threads, "schedule": None, "alloc_fail": alloc_fail, "alloc_fail_commit": alloc_fail_commit, "btree_t": wl.choice([3, 3, 4, 127]), "alloc_exc": wl.choice(["mem", "mem", "base"]), "event_alloc_fail": wl.choice([1, 1, 2, 3]) if wl.random() < 0.1 else None}
 
 
 # ---------------------------------------------------------------------------
@@ -400,7 +401,7 @@ class _World:
         log.add("invoke_writer", t.idx, n)
         s.yield_point("op")
         try:
-            txn = z.writer()
+            txn = z.writer(True) if op.get("repl") else z.writer()
         except (MemoryError, _PlannedBase):
             # the injected failure (an allocation failure, or an interrupt-like BaseException): this writer ends here, the zone must stay usable
             self.admitted_inv.add(inv)
@@ -410,7 +411,7 @@ class _World:
             return
         # ---- admitted ----
         t.data["txn"] = txn
-        missing = [i for i in ahead if i not in self.admitted_inv and i not in _ALLOC["failed_inv"]]
+        missing = [i for i in ahead if i not in self.admitted_inv and i not in _ALLOC["failed_inv"] and i not in threadsim.EVENT_ALLOC_FAULT.get("failed_inv", ())]
         self.admitted_inv.add(inv)
         self.admissions.append((t.idx, n))
         self.open.append(t)
@@ -438,6 +439,15 @@ class _World:
 
     def _writer_body(self, t, op, n, txn):
         s = self.sched
+        if op.get("repl"):
+            # a replacement writer (starts from an empty zone): admitted like any other; it gives up
+            s.yield_point("op")
+            t.phase = "ending"
+            self.open.remove(t)
+            txn.rollback()
+            t.phase = "idle"
+            self.res.probes.inc("replacement_writer_admitted")
+            return
         end = op["end"]
         will_commit = end in ("commit", "with")
         counter = self.name("counter")
@@ -534,7 +544,13 @@ class _World:
         s = self.sched
         t.phase = "in_writer2"
         s.yield_point("op")
-        txn = z2.writer()
+        try:
+            txn = z2.writer()
+        except MemoryError:
+            # the injected failure creating a wait event: this attempt ends here
+            t.phase = "idle"
+            self.log.add("zone2_writer_failed", t.idx)
+            return
         t.data["txn2"] = txn
         self.open2.append(t)
         t.phase = "open2"
@@ -808,14 +824,19 @@ def run_case(case, keep_log=False):
     _ALLOC["failed_inv"] = set()
     _ALLOC["skip_zone"] = world.zone2
     _ALLOC["exc"] = _PlannedBase if case.get("alloc_exc") == "base" else MemoryError
+    threadsim.EVENT_ALLOC_FAULT["n"] = case.get("event_alloc_fail")
+    threadsim.EVENT_ALLOC_FAULT["fired"] = 0
+    threadsim.EVENT_ALLOC_FAULT["failed_inv"] = set()
     try:
         failure = sched.run()
     finally:
         _ALLOC["n"] = None
         _ALLOC["commit_n"] = None
         _ALLOC["skip_zone"] = None
+        threadsim.EVENT_ALLOC_FAULT["n"] = None
     res.faults.inc("alloc_failure_in_version_setup", _ALLOC["fired"])
     res.faults.inc("alloc_failure_at_commit", _ALLOC["fired_commit"])
+    res.faults.inc("alloc_failure_creating_wait_event", threadsim.EVENT_ALLOC_FAULT["fired"])
     if failure is None:
         try:
             world.final_checks()
